@@ -169,15 +169,19 @@ func RunDoc(c *hx.Ctx, idx int, keep bool) {
 	var odtTables []*Node
 	var dpkg docxPkg
 	var opkg odtPkg
+	// the markup flavour: the same logical document, the same authored trees, the
+	// namespaces of the package spelled another way (a stream of its own)
+	fr := flavourStream(c, idx)
+	d.Flavour = pickFlavour(fr, F)
 	if F == "docx" {
 		pkg := writeDocx(r, d)
 		dpkg = pkg
-		os.WriteFile(path, writers.Zip(pkg.Members), 0o644)
+		os.WriteFile(path, writers.Zip(applyFlavour(fr, F, d.Flavour, pkg.Members)), 0o644)
 		opLine = "c16.docx " + pkg.Doc.Sexp() + " " + sexpOrDash(pkg.Styles)
 	} else {
 		pkg := writeOdt(r, d)
 		opkg = pkg
-		os.WriteFile(path, writers.Zip(pkg.Members), 0o644)
+		os.WriteFile(path, writers.Zip(applyFlavour(fr, F, d.Flavour, pkg.Members)), 0o644)
 		opLine = "c16.odt " + pkg.Content.Sexp() + " " + sexpOrDash(pkg.Styles)
 		odtTables = pkg.Tables
 	}
@@ -207,6 +211,7 @@ func RunDoc(c *hx.Ctx, idx int, keep bool) {
 			docxEls = els
 			implLine = dumpDocx(els)
 			out.Parsed, out.HaveParsed = parsedDocx(els), true
+			out.Hdr, out.Ftr, out.HaveHF = rd.HeaderTexts(), rd.FooterTexts(), true
 			rdText, _ = rd.Text()
 			rdMD, _ = rd.Markdown()
 		} else {
@@ -222,6 +227,7 @@ func RunDoc(c *hx.Ctx, idx int, keep bool) {
 			for _, t := range rd.Tables() {
 				colCounts = append(colCounts, len(t.ColWidths))
 			}
+			out.Hdr, out.Ftr, out.HaveHF = rd.HeaderTexts(), rd.FooterTexts(), true
 			rdText, _ = rd.Text()
 			rdMD, _ = rd.Markdown()
 		}
@@ -328,6 +334,15 @@ func stats(c *hx.Ctx, d *ldoc) {
 	if d.Edge {
 		c.Count(d.Format + "-edge-attribute-document")
 	}
+	if d.Flavour != "" {
+		c.Count(d.Format + "-markup-flavour:" + d.Flavour)
+		for _, k := range strings.Split(d.Flavour, "+") {
+			c.Count(d.Format + "-markup:" + k)
+			if len(d.Header)+len(d.Footer) > 0 && (d.Format == "docx" || d.Styles) {
+				c.Count(d.Format + "-markup:" + k + "-with-header/footer-part")
+			}
+		}
+	}
 	if d.Body != "" {
 		c.Count(d.Format + "-body-style-document:" + d.Body)
 	}
@@ -414,6 +429,13 @@ func stats(c *hx.Ctx, d *ldoc) {
 		}
 		if bl.P.Kind == "h" {
 			c.Count(d.Format + "-heading-via-" + bl.P.Via)
+			if bl.P.StyleLevel != 0 {
+				who := "a-style-above-it"
+				if bl.P.StyleOwn {
+					who = "its-own-style"
+				}
+				c.Count(fmt.Sprintf("odt-heading-outline-level-differs-from-the-level-of-%s:via-%s", who, bl.P.Via))
+			}
 		}
 		if p := bl.P; p.Kind == "h" && p.Via == "outline" && p.Plain != "" {
 			c.Count(d.Format + "-direct-outline-heading-in-body-style:" + p.Plain)
@@ -443,7 +465,7 @@ func stats(c *hx.Ctx, d *ldoc) {
 		if d.Fam != nil && bl.P.Kind == "h" {
 			id := bl.P.Fam
 			if id == "" {
-				id = rootStyleID(d.Format, bl.P.Via, bl.P.Level)
+				id = rootStyleID(d.Format, bl.P.Via, bl.P.styleLevel())
 			}
 			if fs := d.Fam.get(id); fs != nil {
 				if fs.Via == "family" {
@@ -697,7 +719,40 @@ func witnessDocs() []*ldoc {
 		// plain paragraphs (and a table) written in the same body style
 		outlineWitness("docx"),
 		outlineWitness("odt"),
+		// ODT: headings that say another level than the one a style above their paragraph
+		// style carries
+		relevelWitness(),
+		relevelOwnWitness(),
 	}
+}
+
+// relevelWitness: what an editor writes after the level of a heading was changed on the
+// paragraph: the heading keeps "Heading 1" through the automatic style derived from it
+// (no outline level of its own) and says text:outline-level 3; the same with a custom
+// heading style; beside headings whose style and level agree.
+func relevelWitness() *ldoc {
+	return &ldoc{Format: "odt", Styles: true, NoDraw: true, Blocks: []lblock{
+		{P: &lpara{Kind: "h", Level: 1, Via: "builtin", Runs: tx("W001x")}},
+		{P: &lpara{Kind: "p", Runs: tx("W002x")}},
+		{P: &lpara{Kind: "h", Level: 3, StyleLevel: 1, Via: "inherited", Runs: tx("W003x")}},
+		{P: &lpara{Kind: "p", Runs: tx("W004x")}},
+		{P: &lpara{Kind: "h", Level: 3, Via: "builtin", Runs: tx("W005x")}},
+		{P: &lpara{Kind: "h", Level: 2, StyleLevel: 5, Via: "inherited2", Runs: tx("W006x")}},
+		{P: &lpara{Kind: "h", Level: 1, Via: "inherited", Runs: tx("W007x")}},
+		{P: &lpara{Kind: "h", Level: 6, StyleLevel: 2, Via: "inherited", Runs: tx("W008x")}},
+	}}
+}
+
+// relevelOwnWitness: the heading names "Heading 1" itself and says text:outline-level 3
+// (the outline level is no property of an automatic style: an editor that changes nothing
+// else writes no automatic style at all).
+func relevelOwnWitness() *ldoc {
+	return &ldoc{Format: "odt", Styles: true, NoDraw: true, Blocks: []lblock{
+		{P: &lpara{Kind: "h", Level: 1, Via: "builtin", Runs: tx("W001x")}},
+		{P: &lpara{Kind: "h", Level: 3, StyleLevel: 1, StyleOwn: true, Via: "builtin", Runs: tx("W002x")}},
+		{P: &lpara{Kind: "p", Runs: tx("W003x")}},
+		{P: &lpara{Kind: "h", Level: 2, StyleLevel: 4, StyleOwn: true, Via: "custom", Runs: tx("W004x")}},
+	}}
 }
 
 func outlineWitness(F string) *ldoc {
@@ -760,12 +815,12 @@ func runWitness(c *hx.Ctx, wi int, keep bool) {
 		pkg := writeDocx(r, d)
 		dpkg = pkg
 		os.WriteFile(path, writers.Zip(pkg.Members), 0o644)
-		opLine = "c16.docx " + pkg.Doc.Sexp() + " -"
+		opLine = "c16.docx " + pkg.Doc.Sexp() + " " + sexpOrDash(pkg.Styles)
 	} else {
 		pkg := writeOdt(r, d)
 		opkg = pkg
 		os.WriteFile(path, writers.Zip(pkg.Members), 0o644)
-		opLine = "c16.odt " + pkg.Content.Sexp() + " -"
+		opLine = "c16.odt " + pkg.Content.Sexp() + " " + sexpOrDash(pkg.Styles)
 		odtTables = pkg.Tables
 	}
 	if !keep {
@@ -816,7 +871,7 @@ func runWitness(c *hx.Ctx, wi int, keep bool) {
 	if d.Format == "docx" {
 		docxViewsOp(c, dpkg, path, viewOpts{}, "TMRDLPDMT", kase)
 		docxVMergeOps(c, dpkg, docxEls)
-		c.Op("c16.docx.cached "+dpkg.Doc.Sexp()+" -", implLine)
+		c.Op("c16.docx.cached "+dpkg.Doc.Sexp()+" "+sexpOrDash(dpkg.Styles), implLine)
 	} else {
 		odtViewsOp(c, opkg, path, viewOpts{}, "TMRDLPDMT", kase)
 	}
@@ -848,6 +903,8 @@ func Run(c *hx.Ctx) {
 		"(even index = DOCX, odd = ODT); ODT tables group their rows / columns in table-header-rows, table-rows, table-row-group, table-columns, table-header-columns, table-column-group in two of five cases; " +
 		"for every document ONE more reader whose views (TextWithOptions, MarkdownWithOptions, MarkdownWithRAGOptions, Document, ModelTables, parsed elements) are asked for in a drawn order with repetitions and drawn options (exclusion switches, heading offset -3..4, heading cap 0/1/3/6/9/-1), every answer compared in full with the Lean model of the writers; the views through tabula.Open(f) with drawn Exclude switches; a drawn history of 3..12 Resolve calls (ids the document uses and ids it does not define, repeated, the empty id) on one style resolver; the row spans of every DOCX body table against the state-free specification of the vertical-merge pass; " +
 		"plus a render stream: regular documents into which body paragraphs are planted that ARE header/footer lines (bare, padded with spaces / tabs / no-break spaces / line breaks, near misses; as paragraph, heading, list item, table cell), cell text with pipes and Unicode spaces, a first / last paragraph that begins / ends with line breaks, paragraphs and list items without text, DOCX headings that also carry numbering properties, numbering parts and ODT list styles drawn at random (every number format incl. unknown ones, level texts plain / pattern / Private-Use / control character / empty, start values 0 / negative / huge / not a number, levels missing or defined twice, ids that point nowhere), ODT lists without a style name or with an undefined one - these are checked by the correspondence of all views, the panic check and the leak count (a header/footer line occurs in Text() / Markdown() exactly as often as the body holds it, exclusion never adds text); " +
+		"ODT headings whose text:outline-level is NOT the level their paragraph style's definition chain says (a heading moved to another level keeps its style): through an automatic style derived from Heading N / a custom heading style of another level, through a family style that inherits its level (the style named carries no outline level of its own: key odt-outline-level-vs-inherited-style-level), and naming the built-in / custom / localized / family heading style of another level itself (key odt-outline-level-vs-own-style-level, known finding) - the heading's level is what text:outline-level says; " +
+		"every generated and render-stream package in a drawn MARKUP FLAVOUR (flavour.go; about half keep the writers' spelling): DOCX in the ISO/IEC 29500 Strict namespaces (main, relationships, every relationship Type, w:conformance=strict), the relationships namespace under another prefix or declared on each referencing element instead of the root, the main namespace under another prefix or as default namespace (each WordprocessingML part on its own), and combinations; ODT with text/office/style/table/fo under other prefixes, the text / style namespace as default namespace, table/xlink/svg declared on the elements that use them - same logical document, same authored trees, same expectations; HeaderTexts()/FooterTexts() of the reader hold the lines of the header / footer parts (key header-requested); " +
 		"plus fixed witnesses of the quoted defects and a stream of damaged packages; " +
 		"plus documents AT THE RESOURCE BOUNDS of the readers, written element by element (bounds.go; distribution buckets bound:…): inline containers (w:ins/w:sdt/w:sdtContent/w:hyperlink/w:smartTag/w:fldSimple/w:moveTo, text:span/text:a) nested 9999, 10000, 10001, 10002 and 40000 deep with text at several depths - in a body paragraph, a heading, a list-item paragraph, a table-cell paragraph, a header part, a nested table (not decoded), as the first body paragraph, inside a text:section, inside a skipped text:note (not decoded), with block elements behind the refused tag; " +
 		"text:s counts 1, 7, 1023, 1024, 1025, 4096, 2^31-1, 2^63-1, 2^63, 10^20-1, +5, 007, 0, -3, empty, a word, omitted; tables whose rows x spanned columns are 2^20-cols, 2^20, 2^20+cols (spans 1024, 1000 - integer division -, 2 x 256, with vMerge, with row spans 16 and 1024), twenty and eight million, and large tables without spans; ODT tables whose table:table-column elements DECLARE more columns than the rows hold: rows x declared columns = 2^20 exactly (1024 x 1024, 1 x 2^20), one row / one column more, 1048 / 1049 rows x 1000, 128 x 131072 (the quoted document), 300 x 307200, 2 x 2048000; a basedOn chain of 2000 styles - " +
